@@ -1544,7 +1544,12 @@ static int save_object_recurse (program_t * prog, svalue_t ** svp, int type, int
           continue;
         }
       save_svalue_depth = 0;
-      theSize = svalue_save_size (*svp);
+      theSize = svalue_save_size (*svp); /* raises an error if nested too deep */
+      if (!f)
+        {
+          (*svp)++; /* dry run, see save_object() */
+          continue;
+        }
       new_str = (char *) DXALLOC (theSize, TAG_TEMPORARY, "save_object: 2");
       *new_str = '\0';
       p = new_str;
@@ -1600,6 +1605,12 @@ int save_object (object_t * ob, const char *file, int save_zeros) {
       free_string_svalue (sp--);
       return 0;
     }
+
+  /* Dry run: "nested too deep" is raised with error(), which must not happen
+   * while the temporary file is open (leaks the FILE and leaves the .tmp behind).
+   */
+  v = ob->variables;
+  save_object_recurse (ob->prog, &v, 0, save_zeros, NULL);
 
   /*
    * Write the save-files to different directories, just in case
